@@ -505,7 +505,7 @@ func genBlank(rt *rapid.T, label string) string {
 }
 
 func genLine(rt *rapid.T, ctl bool) string {
-	n := rapid.IntRange(0, 4).Draw(rt, "npieces")
+	n := rapid.SampledFrom([]int{1, 2, 3, 4, 0}).Draw(rt, "npieces")
 	var b strings.Builder
 	b.WriteString(genBlank(rt, "lead"))
 	for i := 0; i < n; i++ {
@@ -601,9 +601,9 @@ func genOps(rt *rapid.T, maxOps int, ctl bool) Case {
 		case w < 58:
 			var f []string
 			switch x := rapid.IntRange(0, 19).Draw(rt, "addkind"); {
-			case x < 2 && lastAdd != nil:
+			case x >= 18 && lastAdd != nil:
 				f = lastAdd // the same form again
-			case x == 2:
+			case x == 17:
 				f = []string{genBlank(rt, "onlyblanks")} // an empty form
 			default:
 				f = genHistForm(rt, ctl)
